@@ -1,7 +1,7 @@
 """C01 — reject-or-preserve for the core language.
 
-Proof: lean/Reduino/Props/C01.lean: translation correctness of `tr` on the core fragment (Python semantics of the
-source = C semantics of the emitted program, every N).
+Proof: lean/Reduino/Props/C01.lean: translation correctness of `tr` / `tr2` on the core fragment (Python semantics of the
+source = C semantics of the emitted program, every N; strict reading of `/` and `%`, see TRUSTED).
 Ties: T (text rendered from the model's `tr` vs the real emit(parse(...))), S_py (model Python semantics vs CPython),
 S_c (model C semantics vs the compiled sketch).  Oracle E: CPython trace vs compiled-firmware trace of the same script,
 on the fragment and on a stream of constructs just outside it."""
@@ -16,10 +16,17 @@ from common import Ctx
 
 TRUSTED = [
     "Lean 4.33 kernel; axioms ⊆ {propext, Classical.choice, Quot.sound}",
-    "fragment: int/bool values, + - *, unary minus, comparisons, and/or/not over bools, conditional expressions, assignment, augmented assignment, "
-    "if/elif/else, while, for-range, break, serial write of ints, sleep; every name first assigned at top level (no promotion); helper functions, lists, "
-    "strings, floats, // % / ** and `continue` are outside the theorem and exercised only by the end-to-end oracle",
-    "C int modelled as an unbounded integer (no overflow): 16-bit AVR int is a side condition the model does not check",
+    "fragment: int/bool values, + - *, bitwise & | ^, // and %, abs(e), min/max over int-typed operands (n-ary calls = left fold), unary minus, comparisons, "
+    "and/or/not over bools, conditional expressions, assignment, augmented assignment (every operator), if/elif/else, while, for-range, break, serial write "
+    "of ints, sleep; names first assigned at top level or (tr2) one block below it; helper functions, lists, strings, floats, / ** << >> and `continue` are "
+    "outside the theorem and exercised only by the end-to-end oracle",
+    "`//` and `%`: the theorem is about the STRICT reading of the C semantics, which stops with `signedDiv` at a `/` or `%` with a negative dividend or divisor "
+    "(there C and Python may differ: K01b, K01c); runs that stop there are not compared in the strict S_c tie, but the RAW reading (C's truncating operators) is "
+    "tied to g++ on every run, and a CPython-vs-firmware difference in such a run is reported under core:floor-division-negative / core:modulo-negative; "
+    "a zero divisor: CPython raises (run skipped as python-raises), the model's raw run reports it and the host firmware dies with SIGFPE",
+    "bitwise operators on negative ints: the model's own two's-complement definitions (bitAnd/bitOr/bitXor over Nat operations), tied to CPython and g++ by S_py / S_c",
+    "abs/min/max: the model evaluates the chosen operand once, the Arduino macros twice (expressions of the fragment are pure)",
+    "C int modelled as an unbounded integer with a 32-bit range check (`overflow`): 16-bit AVR int is a side condition the model does not check",
     "harness/langgen.py printers (Python text and S-expression of one tree), harness/pyoracle.py (CPython + host modules), mock core + host g++",
 ]
 
@@ -32,7 +39,8 @@ def ev_str(evs):
 
 
 OUTSIDE = [
-    # (key, description, source)  — one construct outside the proven fragment each
+    # (key, description, source)  — one construct outside the proven fragment each (`//`, `%` are modelled since W1: the two scripts are
+    # the pinned witnesses of K01b / K01c, where the theorem's strict C run stops with `signedDiv`)
     ("core:continue-dropped", "continue", "n = 0\nwhile n < 4:\n    n += 1\n    if n == 2:\n        continue\n    mon.write(n)\n"),
     ("core:floor-division-negative", "// with a negative operand", "x = 7\ny = -2\nmon.write(x // y)\n"),
     ("core:modulo-negative", "% with a negative operand", "x = -7\ny = 3\nmon.write(x % y)\n"),
@@ -303,6 +311,7 @@ def run(ctx: Ctx) -> int:
             continue
         e_compare(ctx, key, src, 3, res, inside)
     ctx.cov["rule"] = ("type-directed random programs of the core fragment (depth <= 3, bounded while loops, for-range, break, nested if/elif/else, int and bool "
-                       "names all first assigned at top level), N in {0,1,3} passes; each program goes through T, S_py, S_c and E; plus fixed scripts for "
+                       "names all first assigned at top level; expressions over + - * & | ^ // % abs min max, divisors mostly positive), N in {0,1,3} passes; "
+                       "each program goes through T, S_py, S_c (strict and raw reading) and E; plus fixed scripts for "
                        "break-in-main-loop, swaps/tuples, helpers, lists, f-strings (E only) and one-construct-outside scripts; non-trivial = has control flow")
     return ctx.finish(TRUSTED, search=None)
